@@ -265,6 +265,17 @@ var standinPathPool = []string{
 
 var standinCorePool = []string{"/", "/a", "/a/", "/a/b", "/{x}", "/{x}/", "/a/{x}", "/a{x}", "/ab"}
 
+// probeOverride replaces the request paths for one family of route sets
+var probeOverride []string
+
+// hostname routes with parameters in the path under overlapping hosts (a failed path sub-walk under a static
+// host label followed by a match under a {param} label), and hostnames that end in a digit
+var standinHostPathPool = []string{"a.b/{x}/foo", "{h}.b/{y}/bar", "/", "a.b/{x}/{z}/q", "n-3/", "{s}.w3/{x}", "/{x}/bar"}
+
+var standinHostPathHosts = []string{"a.b", "c.b", "n-3", "n-3:80", "a.w3", "a.b", "x.w3."}
+
+var standinHostPathProbes = []string{"/1/bar", "/1/foo", "/1/baz", "/", "/1/2/q", "/1"}
+
 var standinDeepHostPool = []string{"a.b.com/", "a.{s}.com/", "{s}.{t}.com/", "/", "a.b.com/a", "{s}.{t}.com/a", "a.b.{u}/"}
 
 var standinDeepHosts = []string{"a.b.com", "ax.c.com", "a.c.com", "x.y.com", "a.b.comx", "b.a.com", "a.b.org", "a.b.com", "x.b.com"}
@@ -452,6 +463,9 @@ func checkSet(t *testing.T, st *standinStats, seen map[string]bool, patterns []s
 	if strings.Count(patterns[0], "/") >= 5 {
 		paths = deepProbes(accepted)
 	}
+	if probeOverride != nil {
+		paths = probeOverride
+	}
 	// path-major order: consecutive probes differ in the host, so whatever a matching probe leaves in the
 	// pooled context is seen by a probe for another host
 	for _, path := range paths {
@@ -551,6 +565,9 @@ func TestFoxvcStandinRouting(t *testing.T) {
 	// middle of the host, path-only fallback; the hosts are probed in a fixed order on one router, so state
 	// left in the pooled contexts by one probe is seen by the next
 	rec(standinDeepHostPool, 0, nil, 3, standinDeepHosts)
+	probeOverride = standinHostPathProbes
+	rec(standinHostPathPool, 0, nil, 3, standinHostPathHosts)
+	probeOverride = nil
 	out, _ := json.Marshal(st)
 	fmt.Printf("STANDIN %s\n", out)
 	for _, m := range st.Mismatches {
